@@ -359,7 +359,8 @@ def _handle_cex(res, spec, prop, cex, p, arrs, L, grads):
         return
     src = replay_tpl.grad_replay(prop, spec, model, cex["leaf"], cex["index"], float(F), float(G))
     path = common.write_replay(prop, _safe(spec["name"]), src)
-    ok, out = common.run_replay(path)
+    # (a confirmation of a listed known finding does not use up the replay budget)
+    ok, out = common.run_replay(path, count=common.match_known(common.load_known(prop), "%s:%s" % (spec["name"], cex["leaf"])) is None)
     if ok is True:
         res["status"] = common.VIOLATION
         res["violations"].append(
